@@ -264,6 +264,11 @@ func (r *Res) GetTemplate(ctx context.Context, sym string) (string, error) {
 		s.W.Rec.Add(s.Idx, "GetTemplate", sym+"/"+lg, "FAULT")
 		return "", fmt.Errorf("injected failure of the template lookup")
 	}
+	if len(n.Tpl) == 0 {
+		// a node without any template record (an end node that only says goodbye with its exit value)
+		s.W.Rec.Add(s.Idx, "GetTemplate", sym+"/"+lg, "ERR")
+		return "", fmt.Errorf("no template for %s", sym)
+	}
 	tpl, ok := n.Tpl[lg]
 	if !ok {
 		tpl = n.Tpl[""]
